@@ -9,3 +9,5 @@ CONSTANTS
   WithFail = TRUE
   Salts = {1, 2, 3}
   Pres = {"none", "hop"}
+  Maps = {"none"}
+  MapRebuildLossy = FALSE
